@@ -1,5 +1,6 @@
 import GnarkVerif.Model.Util
 import GnarkVerif.Model.Sha256
+import GnarkVerif.Model.Poseidon2
 /-
 C16 — executable models of the two Merkle trees.
 
@@ -360,6 +361,11 @@ def tamper (kind : String) (a : Nat) (n : Nat) (rt : Option Sym) (lf : Option By
   | "dup" => some (rt, lf, match sibs.getLast? with | some x => sibs ++ [x] | none => sibs, i)
   | "appleaf" => some (rt, lf, match lf with | some l => sibs ++ [Sym.leaf l] | none => sibs, i)
   | "empty" => some (rt, none, [], i)
+  -- bytes an algebraic hasher refuses (no digest exists for them) / a leaf of another length / another root: all CHANGED values
+  | "leafnc" => some (rt, lf.map (fun _ => [0xde, 0xad, 1]), sibs, i)
+  | "sibnc" => some (rt, lf, if sibs.isEmpty then sibs else sibs.set (a % sibs.length) (Sym.atom 778), i)
+  | "leaflen" => some (rt, lf.map (· ++ [1, 1, 1]), sibs, i)
+  | "rootnc" => some (rt.map (fun _ => Sym.atom 779), lf, sibs, i)
   | "collapse" =>
     -- leaf := preimage of the a-th node on the path (not a leaf preimage in the idealised model), siblings a.. kept
     if i + 1 = n ∧ 0 < a ∧ a ≤ sibs.length then some (rt, lf.map (fun _ => [0xde, 0xad]), sibs.drop a, i)
@@ -398,6 +404,38 @@ def readerOf (spec : String) (seg : Nat) (b : Bytes) : Option Rd :=
 /-- the leaves `ReadAll` pushes when it reads the stream `b` through the reader of the spec -/
 def readLeaves (spec : String) (seg : Nat) (b : Bytes) : Option (List Bytes) :=
   (readerOf spec seg b).map (readAllR seg ((b.length + 2) * 66) (b.length + 1))
+
+/-- the algebraic hashers of the hash registry: `Write` accepts a sequence of canonical field elements -/
+structure AlgHash where
+  mimc : Bool
+  q : Nat
+  eb : Nat   -- bytes per field element
+  bs : Nat   -- block size of the hasher
+
+/-- `mimc_<curve>` (MiMC over fr, one element per block), `p2_<pkg>` (Merkle–Damgård over the Poseidon2 compression with the
+    default width `t`: `t/2` elements per block) -/
+def algHash (name : String) : Option AlgHash :=
+  if name.startsWith "mimc_" then do
+    let (_, fname, _, _) ← MiMC.instances.find? (·.1 == (name.drop 5).toString)
+    let fc ← Gen.allFields.find? (·.name == fname)
+    some { mimc := true, q := fc.q, eb := fc.bytes, bs := fc.bytes }
+  else if name.startsWith "p2_" then do
+    let pk ← Poseidon2.pkgs.find? (·.name == (name.drop 3).toString)
+    let fc ← Gen.allFields.find? (·.name == pk.field)
+    some { mimc := false, q := fc.q, eb := fc.bytes, bs := (pk.dflt.1 / 2) * fc.bytes }
+  else none
+
+/-- what ONE `Write(p)` of the hasher accepts.  MiMC: after the left-padding of a short write, whole blocks, each a canonical
+    element.  Merkle–Damgård: blocks of `bs` bytes, the short tail left-padded, each a sequence of canonical elements. -/
+def AlgHash.absorbs (H : AlgHash) (p : Bytes) : Bool :=
+  if H.mimc then
+    let P : MiMC.Params := { q := H.q, d := 0, size := H.bs, consts := [] }
+    (MiMC.decodeBlocks P (MiMC.pad P p)).isSome
+  else (Poseidon2.chunks H.bs p).all (fun c => (Poseidon2.decodeElems H.q H.eb c).isSome)
+
+/-- which leaves a tree over the hash can hold (`sum` panics when the hasher refuses: the tree is not built) -/
+def leafOk (name : String) : Option (Bytes → Bool) :=
+  if name == "sha256" then some (fun _ => true) else (algHash name).map (·.absorbs)
 
 def showObs : Option (Obs Bytes Bytes) → String
   | some (.root r) => optHex r
@@ -530,7 +568,8 @@ def handle : List String → String
   | ["accroot", "sha256", n, seed] =>
     let t := pushAll shaL shaN ({} : Tree Bytes Bytes) (leavesOf (parseHexD seed) (parseHexD n))
     optHex (root shaN t) ++ " " ++ optHex (if parseHexD n = 0 then none else some (MTH shaL shaN (leavesOf (parseHexD seed) (parseHexD n))))
-  | ["acct", _hash, n, i, seed, kind, a] =>
+  | ["acct", hash, n, i, seed, kind, a] =>
+    if (leafOk hash).isNone then "bad-op" else
     let n := parseHexD n
     let (rt, lf, sibs, pi, nl) := prove Sym.node (symTree n (parseHexD i) (parseHexD seed))
     match tamper kind (parseHexD a) n rt lf sibs pi with
@@ -558,6 +597,27 @@ def handle : List String → String
     let t := pushAll shaL shaN ({ pidx := parseHexD i, proofTree := true } : Tree Bytes Bytes) ls
     let (rt, lf, _, _, nl) := prove shaN t
     if lf.isNone then s!"err:notreached {optHex rt} {toHex nl}" else showProve shaL shaN id t
+  | ["accb", hash, n, j, _seed, leaf] =>
+    -- a tree whose j-th leaf is `leaf` (the others are absorbable): it exists iff the hasher absorbs the leaf, and then the
+    -- proof of j verifies (`C16_prove_verifies`)
+    let n := parseHexD n
+    let j := parseHexD j
+    match leafOk hash with
+    | none => "bad-op"
+    | some ok =>
+      if n = 0 ∨ j ≥ n ∨ n > 64 then "bad-op" else
+      if !ok (parseBytes leaf) then "refused" else
+      let L := (leavesOf 1 n).set j (0xee :: parseBytes leaf)
+      let (rt, lf, sibs, pi, nl) := prove Sym.node (pushAll Sym.leaf Sym.node ({ pidx := j, proofTree := true } : Tree Bytes Sym) L)
+      "ok " ++ boolStr (verifyProof Sym.leaf Sym.node rt lf sibs pi nl)
+  | ["accrb", hash, seg, bs] =>
+    let sg := parseHexD seg
+    match leafOk hash with
+    | none => "bad-op"
+    | some ok =>
+      if sg = 0 then "bad-op" else
+      let b := parseBytes bs
+      if (chunks sg b.length b).all ok then "ok" else "refused"
   | ["accti", "sha256", n, i, seed, pairs] => accIdxHandle (parseHexD n) (parseHexD i) (parseHexD seed) (pairs.splitOn ",")
   | ["vxi", n, p, pat, _seed, js] => vxIdxHandle (parseHexD n) (parseInt p) pat ((js.splitOn ",").map parseInt)
   | ["vx", n, i, pat, _seed, kind, a] => vxHandle (parseHexD n) (parseInt i) pat kind (parseInt a)
